@@ -139,7 +139,9 @@ class AggRun(object):
 
   def input(self, s, ts, vid, selfnamed=False):
     name = ('%s.s%d' % ('keep' if (len(self.ev) + ts) % 2 else 'keep2', s)) if selfnamed else 'in.s%d.h%d' % (s, vid % 2)
-    dp = (ts, float(4 ** vid))
+    # every third datapoint carries a fractional timestamp late in its second (it belongs to the interval of floor(ts))
+    fts = ts + 0.75 if (vid + ts) % 3 == 0 else ts
+    dp = (fts, float(4 ** vid))
     out = list(self.proc.process(name, dp))
     fwdsame = 1 if all(o == (name, dp) for o in out) else 0
     e = dict(e='in', s=s, ts=ts, id=vid, selfnamed=bool(selfnamed), fwd=len(out), fwdsame=fwdsame, p=self.project())
